@@ -8,9 +8,11 @@ RULE = ("random epsilon-NFA/NFA/DFA specs (0-4 states, 1-3 plain symbols, any nu
         "none, start = final, self loops, epsilon transitions, string state names so that the elimination order varies "
         "with the hash seed); to_regex() must not raise, its parsed tree and to_regex().to_epsilon_nfa() must accept "
         "exactly the automaton's language (verified equivalence oracle), and accepts() must agree on all words of "
-        "length <=3. Non-trivial: >=2 states, >=2 transitions, a start and a final state.")
-LEVEL = "translation_validation"
-THEOREMS = ["Pfl.Rx.thompson_lang",
+        "length <=3; the parsed tree is also compared, modulo associativity of concatenation and ACI of union, "
+        "with the tree-level Lean model of the elimination fed with the recorded elimination order. Non-trivial: >=2 states, >=2 transitions, a start and a final state.")
+LEVEL = "proof"
+THEOREMS = ["Pfl.ENFA.toRegexRx_lang",
+            "Pfl.Rx.thompson_lang",
             "Pfl.ENFA.langDiff_none_iff",
             "Pfl.ENFA.langDiff_some",
             "Pfl.ENFA.member_iff"]
